@@ -21,6 +21,18 @@ int main(void)
 '''
 
 
+C_SRC_CAP = r'''
+#include <stdio.h>
+#include "%s"
+struct l1s_state l1s;
+int main(void)
+{
+	printf("%%u\n", (unsigned) (sizeof(l1s.dedicated.h1.ma) / sizeof(l1s.dedicated.h1.ma[0])));
+	return 0;
+}
+'''
+
+
 def c_flags():
     cmd = ["-DHOST_BUILD"]
     for i in (cbuild.SHIM, cbuild.LIBOSMO_INC, cbuild.TOP_INC):
@@ -40,16 +52,20 @@ def names(run):
     if rc != 0:
         raise vf.HarnessError("rfch.c does not preprocess: %s" % txt[-1500:])
     import re
-    tables = []
+    tables, values, widths = [], {}, {}
     for m in re.finditer(r"\b([A-Za-z_]\w*)\s*\[[^\]]*\]\s*=\s*\{([^{}]*)\}", txt):
         items = [x for x in m.group(2).replace("\n", " ").split(",") if x.strip()]
         if len(items) == 114 and all(re.fullmatch(r"\s*(0[xX][0-9a-fA-F]+|\d+)[uUlL]*\s*", x) for x in items):
             tables.append(m.group(1))
+            values[m.group(1)] = [int(re.sub(r"[uUlL]", "", x.strip()), 0) for x in items]
+            head = txt[max(0, m.start() - 120):m.start()]
+            widths[m.group(1)] = 1 if re.search(r"\b(uint8_t|int8_t|unsigned\s+char|char)\b[^;{}]*$", head) else (2 if re.search(r"\b(uint16_t|int16_t|short)\b[^;{}]*$", head) else 4)
     table = "rn_table" if "rn_table" in tables else (tables[0] if len(set(tables)) == 1 else None)
     if table is None:
         raise vf.HarnessError("the RNTABLE copy of rfch.c (an array of 114 integer constants) was not found in its translation unit: %r" % tables)
     defined = lambda f: re.search(r"\b%s\s*\([^;{}]*\)\s*\{" % f, txt) is not None
-    run.hop_names = {"table": table, "seq_gen": defined("rfch_hop_seq_gen"), "pnm": defined("pow_nbin_mask")}
+    run.hop_names = {"table": table, "seq_gen": defined("rfch_hop_seq_gen"), "pnm": defined("pow_nbin_mask"),
+                     "values": values[table], "width": widths[table]}
     return run.hop_names
 
 
@@ -57,15 +73,25 @@ def generate(run):
     rfch = os.path.join(vf.REPO, "src/target/firmware/layer1/rfch.c")
     src = os.path.join(run.scratch, "gen_hopping.c")
     exe = os.path.join(run.scratch, "gen_hopping")
-    tname = names(run)["table"]
+    nm = names(run)
+    tname = nm["table"]
     with open(src, "w") as f:
         f.write(C_SRC % (rfch, tname, tname, tname, tname))
-    vf.cc([src], exe, flags=c_flags())
-    rc, out = vf.sh([exe], check=True)
-    nums = out.split()
-    n, width = int(nums[0]), int(nums[1])
-    fw = [int(x) for x in nums[2:2 + n]]
-    ma_cap = int(nums[2 + n])
+    try:
+        vf.cc([src], exe, flags=c_flags())
+        rc, out = vf.sh([exe], check=True)
+        nums = out.split()
+        n, width = int(nums[0]), int(nums[1])
+        fw = [int(x) for x in nums[2:2 + n]]
+        ma_cap = int(nums[2 + n])
+    except vf.HarnessError:
+        # the table is not visible at file scope (e.g. a function-local static): its 114 initialisers were read from the
+        # preprocessed text; only the capacity of ma[] is asked of the compiler
+        with open(src, "w") as f:
+            f.write(C_SRC_CAP % rfch)
+        vf.cc([src], exe, flags=c_flags())
+        rc, out = vf.sh([exe], check=True)
+        fw, width, ma_cap = nm["values"], nm["width"], int(out.split()[0])
     rc, out = vf.sh([vf.PY, "-c",
         "import sys, json; sys.path.insert(0, %r); import gsm_shared as g; "
         "print(json.dumps([int(x) for x in g.HoppingParams.RNTABLE]))" % vf.TRX], check=True)
